@@ -123,6 +123,28 @@ def evalData (n i : Nat) (xc : Named K) : DataFn K → Except Err (List K)
 def evalDataFns (n i : Nat) (xc : Named K) (fs : List (String × DataFn K)) : Except Err (Named K) :=
   fs.mapM fun p => do pure (p.1, ← evalData n i xc p.2)
 
+/-- does `_setup_data_functions` pre-evaluate?  (after the repair: only for a StaticSampler that never
+    resamples; `interval = none` is `resample_interval = math.inf`) -/
+def shouldPreEval (static : Bool) (interval : Option Nat) : Bool := static && interval.isNone
+
+/-- the code before the repair pre-evaluated for every StaticSampler -/
+def shouldPreEvalOld (static : Bool) (_interval : Option Nat) : Bool := static
+
+/-- `Condition._setup_data_functions`: every entry is wrapped; for a StaticSampler every function is
+    evaluated ONCE, at construction, on the points `sampler.sample_points()` returns at that moment
+    (one call per function: `pre` = one point set per data function, in dict order) and replaced by
+    the resulting tensor -/
+def setupDataFns (space : SpaceL) (pre : Option (List (List (List K)))) (fs : List (String × UFun K)) :
+    Except Err (List (String × DataFn K)) :=
+  match pre with
+  | none => .ok (fs.map fun p => (p.1, DataFn.fn p.2))
+  | some sets =>
+    if sets.length = fs.length then
+      (fs.zip sets).mapM fun ps => do
+        let t ← ps.2.mapM fun row => ps.1.2.call (splitRow space row)
+        pure (ps.1.1, DataFn.pre t)
+    else .error .shape
+
 inductive ErrKind where | sq | ident | absSum deriving Repr, DecidableEq
 inductive RedKind where | mean | sum | max deriving Repr, DecidableEq
 
